@@ -1,6 +1,6 @@
 """C02 -- emu-mps reproduces the Pulser Hamiltonian dynamics: the data-flow clauses (which drive,
 which coupling, which initial amplitude reaches which MPS site)."""
-from contracts import frame_scan, mps_dataflow as D, mps_dataflow_sites as S
+from contracts import frame_scan, mps_dataflow as D, mps_dataflow_sites as S, mps_stepping as ST
 
 ID = "C02"
 LEVEL = "proof"
@@ -18,9 +18,10 @@ def extra_checks(tier, seed, repo_root):
 def build(reg):
     D.register(reg, "C02")
     S.register(reg, "C02")
+    stepping = ST.register(reg, "C02")
     M = D.IMPL
     return dict(
-        targets=[f"{M}:MPSBackendImpl.__init__[drives]", f"{M}:MPSBackendImpl.__init__[drives,N=4]",
+        targets=stepping + [f"{M}:MPSBackendImpl.__init__[drives]", f"{M}:MPSBackendImpl.__init__[drives,N=4]",
                  f"{M}:MPSBackendImpl._get_interaction_matrix[no filter]",
                  f"{M}:MPSBackendImpl.update_H", f"{M}:MPSBackendImpl.update_H_no_noise",
                  f"{M}:MPSBackendImpl.init_initial_state[given state]"],
